@@ -107,7 +107,7 @@ func (x *Ctx) dumpAttr(f reflect.Value, a *spec.Attr, o dumpOpt) interface{} {
 		}
 		return out
 	case spec.KCustom:
-		return fmt.Sprintf("custom:%#v", derefAll(f))
+		return fmt.Sprintf("custom:%v", derefAll(f))
 	}
 	return "?"
 }
